@@ -1111,7 +1111,23 @@ pub fn g_lang(p: LangParams) -> impl Strategy<Value = GrammarSpec> {
                     alts: out_alts,
                 });
             }
-            GrammarSpec { terms, rules: out_rules, layout: None }
+            let mut g = GrammarSpec { terms, rules: out_rules, layout: None };
+            // occasionally a user rule is named like the helper rule of a repetition used in the
+            // grammar (`B1` next to `B+`, `A0` / `A1` next to `A*`, `AOpt` next to `A?`): the
+            // compiler must refuse such a grammar wherever the rule stands (spare bits of the
+            // terminal meta-data, so that the strategy is unchanged)
+            let (r0, r1) = tmeta[tmeta.len() - 1];
+            if p.sugar && g.rules.len() > 1 && r0 % 5 == 4 {
+                let helpers = g.helper_names();
+                if !helpers.is_empty() {
+                    let i = 1 + (r1 as usize % (g.rules.len() - 1));
+                    let h = helpers[(r1 as usize / 8) % helpers.len()].clone();
+                    if !g.rules.iter().any(|r| r.name == h) {
+                        g.rules[i].name = h;
+                    }
+                }
+            }
+            g
         })
 }
 
